@@ -16,8 +16,22 @@ def work(a):
     except Exception as e:
         return bid, prop, [], ["CRASH %s: %s" % (type(e).__name__, e)]
 
+def prep(bid):
+    import subprocess
+    d = "/tmp/bn/" + bid
+    if os.path.isdir(os.path.join(d, "xandikos")):
+        return True
+    os.makedirs(d, exist_ok=True)
+    subprocess.run("git -C /repo archive HEAD xandikos | tar -x -C %s" % d, shell=True, check=True)
+    r = subprocess.run(["git", "apply", "--whitespace=nowarn", "/verif/benign/%s/patch.diff" % bid], cwd=d, capture_output=True, text=True)
+    if r.returncode != 0:
+        print("patch of %s does not apply: %s" % (bid, r.stderr[:200]))
+    return r.returncode == 0
+
+
 if __name__ == "__main__":
-    ids = sys.argv[1:] or sorted(os.listdir("/tmp/bn"))
+    ids = sys.argv[1:] or sorted(os.listdir("/verif/benign"))
+    ids = [b for b in ids if prep(b)]
     tasks = [(b, p) for b in ids for p in PROPS]
     res = {}
     with ProcessPoolExecutor(16) as ex:
